@@ -35,7 +35,7 @@ pub fn owner_of_op(op: &str) -> Option<Box<dyn Property>> {
     let id = match op {
         "addsub.u" | "addsub.i" | "addsub.s" => "C01",
         "mul.u" | "mul.i" | "mul.s" => "C02",
-        "div.u" | "div.i" | "div.us" => "C03",
+        "div.u" | "div.i" | "div.us" | "div.is" | "div.big" => "C03",
         "hist" | "ctor" => "C04",
         "modpow.u" | "modpow.i" | "modinv.u" | "modinv.i" => "C05",
         "tostr" | "toradix" | "parse" | "fromradix" | "fmt" => "C06",
